@@ -11,7 +11,7 @@ it explicitly for an arbitrary element.
 import ast
 from fractions import Fraction
 
-from .core import ntext, FUNC_NODES
+from .core import ntext, FUNC_NODES, walk_local
 from .poly import Num, Poly, C
 
 
@@ -68,6 +68,14 @@ class DictV:
 
     def __repr__(self):
         return "DictV(%r)" % (self.items,)
+
+
+class PartialV:
+    """functools.partial(fn, *args, **kwargs): calling it calls fn with the fixed arguments first."""
+    __slots__ = ("fn", "args", "kwargs")
+
+    def __init__(self, fn, args, kwargs):
+        self.fn, self.args, self.kwargs = fn, args, kwargs
 
 
 class Opaque:
@@ -578,6 +586,10 @@ class Evaluator:
         nk = ckey(_cnot(t))
         if nk in self.facts:
             return Const(not self.facts[nk])
+        if t[0] == "cmp" and t[1] in ("lt", "le", "eq", "ne") and self.order:
+            kb = self._const_bounds(t)
+            if kb is not None:
+                return Const(kb)
         if t[0] == "cmp" and t[1] in ("lt", "le", "eq", "ne"):
             rel = self.order.get((key(t[2]), key(t[3])))
             if rel is not None:
@@ -590,6 +602,52 @@ class Evaluator:
                 if t[1] in tbl:
                     return Const(tbl[t[1]])
         return c
+
+    def _const_bounds(self, t):
+        """cmp(op, X, c) / cmp(op, c, X) with c a constant, decided from the assumed orderings of X against other constants
+        (X > 0 and c = -18 gives c < X)."""
+        a, b = t[2], t[3]
+        ca, cb = num_const(a), num_const(b)
+        if (ca is None) == (cb is None):
+            return None
+        x, c, x_left = (a, cb, True) if cb is not None else (b, ca, False)
+        kx = key(x)
+        lo = hi = None  # (value, strict)
+        for (k1, k2), rel in self.order.items():
+            if k1 != kx:
+                continue
+            try:
+                v = Fraction(k2)
+            except (ValueError, ZeroDivisionError):
+                continue
+            if rel in ("gt", "eq") and (lo is None or (v, rel == "gt") > lo):
+                lo = (v, rel == "gt")
+            if rel in ("lt", "eq") and (hi is None or (v, rel != "lt") < (hi[0], not hi[1])):
+                hi = (v, rel == "lt")
+        if lo is None and hi is None:
+            return None
+        # facts about X vs c
+        x_gt = lo is not None and (lo[0] > c or (lo[0] == c and lo[1]))
+        x_ge = lo is not None and lo[0] >= c
+        x_lt = hi is not None and (hi[0] < c or (hi[0] == c and hi[1]))
+        x_le = hi is not None and hi[0] <= c
+        op = t[1]
+        if not x_left:
+            # c op X  ==  X op' c
+            op = {"lt": "gt", "le": "ge", "eq": "eq", "ne": "ne"}[op]
+        if op == "lt":
+            return True if x_lt else (False if x_ge else None)
+        if op == "le":
+            return True if x_le else (False if x_gt else None)
+        if op == "gt":
+            return True if x_gt else (False if x_le else None)
+        if op == "ge":
+            return True if x_ge else (False if x_lt else None)
+        if op == "eq":
+            return False if (x_gt or x_lt) else None
+        if op == "ne":
+            return True if (x_gt or x_lt) else None
+        return None
 
     # -- environments --------------------------------------------------------
     def module_env(self, modname):
@@ -786,7 +844,8 @@ class Evaluator:
             else:
                 spec = ""
                 if v.format_spec is not None:
-                    spec = "".join(x.value for x in v.format_spec.values if isinstance(x, ast.Constant))
+                    # a computed part of the format spec is written <value> (f"{x:.{d}f}" has the spec ".<d>f")
+                    spec = "".join(x.value if isinstance(x, ast.Constant) else "<%s>" % key(self.expr(x.value, st)) for x in v.format_spec.values)
                 parts.append(("hole", self.expr(v.value, st), "f:" + spec + ("!%s" % chr(v.conversion) if v.conversion != -1 else "")))
         return self._mk_template(parts)
 
@@ -1120,6 +1179,11 @@ class Evaluator:
             if n is not None:
                 self.strmod_nodes.add(n)  # this `%` formats a string on at least one evaluated path
             return self.percent_format(a, b)
+        if op is ast.BitOr and isinstance(a, DictV) and isinstance(b, DictV) and b.fallback is None:
+            # PEP 584: a | b is a new dict, b's entries win
+            m = dict(a.items)
+            m.update(b.items)
+            return DictV(m, fallback=a.fallback, ident="A:dictor")
         if op is ast.Add:
             if isinstance(a, StrSym) and isinstance(b, StrSym) and a.upper == b.upper:
                 return StrSym(a.chars + b.chars, a.upper)
@@ -1250,13 +1314,9 @@ class Evaluator:
                     return Closure(f, None, selfv=base)
                 return Closure(f, None)
             # class attribute
-            for c in self.P.mro(base.cls):
-                for stn in c.node.body:
-                    if isinstance(stn, ast.Assign):
-                        for t in stn.targets:
-                            if isinstance(t, ast.Name) and t.id == attr:
-                                st0 = State(Env({}, self.module_env(c.module.name), c.module.name, None))
-                                return self.expr(stn.value, st0)
+            v = self._class_attr(base.cls, attr)
+            if v is not None:
+                return v
             return Opaque("%s.%s" % (base.cls.name, attr))
         if isinstance(base, Opaque):
             hk = (base.text, attr)
@@ -1269,6 +1329,11 @@ class Evaluator:
                         # reading a property runs its getter
                         return self.call_closure(Closure(f, None, selfv=base), [], {}, st)
                     return Closure(f, None, selfv=base)
+                # a class-level table / constant read through the instance (never stored on the instance: heap miss above)
+                if base.kind in ("obj", "new") and not self._instance_writes(base.cls, attr):
+                    v = self._class_attr(base.cls, attr)
+                    if isinstance(v, (DictV, Const, Num, Seq)):
+                        return v
             if attr in ("sort", "reverse", "append", "extend", "pop", "insert", "remove", "index", "copy") and (base.kind in ("seq", "copy") or (base.cls is None and base.kind not in ("new", "obj")) or "[" in base.text.rsplit(".", 1)[-1]):
                 return Bound(base, attr)
             fc = self.field_cls.get(attr)
@@ -1284,6 +1349,24 @@ class Evaluator:
         if isinstance(base, Num):
             return Opaque("%s.%s" % (key(base), attr))
         return Opaque("%s.%s" % (key(base), attr))
+
+    def _class_attr(self, cls, attr):
+        for c in self.P.mro(cls):
+            for stn in c.node.body:
+                if isinstance(stn, ast.Assign):
+                    for t in stn.targets:
+                        if isinstance(t, ast.Name) and t.id == attr:
+                            st0 = State(Env({}, self.module_env(c.module.name), c.module.name, None))
+                            return self.expr(stn.value, st0)
+        return None
+
+    def _instance_writes(self, cls, attr):
+        """Is `<x>.attr` stored anywhere in the package (an instance or the class could then hold another value)?"""
+        memo = self.__dict__.setdefault("_iw_memo", {})
+        if attr not in memo:
+            memo[attr] = any(isinstance(n, ast.Attribute) and n.attr == attr and isinstance(n.ctx, (ast.Store, ast.Del))
+                             for m in self.P.modules.values() for n in ast.walk(m.tree))
+        return memo[attr]
 
     def e_Subscript(self, n, st):
         base = self.expr(n.value, st)
@@ -1567,6 +1650,10 @@ class Evaluator:
             return self.instantiate(fv.cls, args, kwargs, st, node)
         if isinstance(fv, Ext):
             return self.call_ext(fv.name, args, kwargs, st, node)
+        if isinstance(fv, PartialV):
+            kw = dict(fv.kwargs)
+            kw.update(kwargs)
+            return self.call(fv.fn, list(fv.args) + list(args), kw, st, node)
         if isinstance(fv, Bound):
             return self.call_bound(fv, args, kwargs, st, node)
         if isinstance(fv, MapV):
@@ -1644,10 +1731,62 @@ class Evaluator:
         for n in f.node.body:
             if isinstance(n, ast.Nonlocal):
                 st.env.nonlocals |= set(n.names)
-        r = self.block(f.node.body, st, [])
+        r = self.block(self._generator_body(f) or f.node.body, st, [])
         if r is None:
             return NONE
         return r.value
+
+    def _generator_body(self, f):
+        """A generator function whose yields are plain statements is evaluated eagerly: `yield X` appends X to a hidden list,
+        `yield from E` extends it, and the call's value is that list (the sequence a consumer would see; laziness and
+        partially consumed generators are not modelled).  None for ordinary functions and for other uses of yield."""
+        memo = self.__dict__.setdefault("_genbody", {})
+        if f.qual in memo and memo[f.qual][0] is f.node:
+            return memo[f.qual][1]
+        import copy as _copy
+
+        ys = [n for n in walk_local(f.node) if isinstance(n, (ast.Yield, ast.YieldFrom))]
+        res = None
+        if ys:
+            stmt_level = {id(n.value) for n in walk_local(f.node) if isinstance(n, ast.Expr) and isinstance(n.value, (ast.Yield, ast.YieldFrom))}
+            if all(id(y) in stmt_level for y in ys):
+                ACC = "_yield_acc"
+                body = _copy.deepcopy(f.node.body)
+
+                class T(ast.NodeTransformer):
+                    def visit_FunctionDef(self, node):
+                        return node
+
+                    def visit_Lambda(self, node):
+                        return node
+
+                    def visit_Expr(self, node):
+                        v = node.value
+                        if isinstance(v, ast.Yield):
+                            val = v.value if v.value is not None else ast.Constant(value=None)
+                            return ast.copy_location(ast.Expr(value=ast.Call(func=ast.Attribute(value=ast.Name(id=ACC, ctx=ast.Load()), attr="append", ctx=ast.Load()), args=[val], keywords=[])), node)
+                        if isinstance(v, ast.YieldFrom):
+                            return ast.copy_location(ast.Expr(value=ast.Call(func=ast.Attribute(value=ast.Name(id=ACC, ctx=ast.Load()), attr="extend", ctx=ast.Load()), args=[v.value], keywords=[])), node)
+                        return node
+
+                    def visit_Return(self, node):
+                        return ast.copy_location(ast.Return(value=ast.Name(id=ACC, ctx=ast.Load())), node)
+
+                body = [T().visit(b) for b in body]
+                first = ast.Assign(targets=[ast.Name(id=ACC, ctx=ast.Store())], value=ast.List(elts=[], ctx=ast.Load()))
+                last = ast.Return(value=ast.Name(id=ACC, ctx=ast.Load()))
+                for x in (first, last):
+                    ast.copy_location(x, f.node)
+                res = [first] + body + [last]
+                mod = ast.Module(body=res, type_ignores=[])
+                ast.fix_missing_locations(mod)
+                for n in ast.walk(mod):
+                    for c in ast.iter_child_nodes(n):
+                        c._parent = n
+                for b in res:
+                    b._parent = getattr(f.node.body[0], "_parent", None)
+        memo[f.qual] = (f.node, res)
+        return res
 
     def instantiate(self, cls, args, kwargs, st, node=None):
         self.fresh += 1
@@ -1672,6 +1811,8 @@ class Evaluator:
         if any(isinstance(a, Phi) for a in args) and sum(_phi_size(a) for a in args) <= 32 and name.split(".")[-1] in (MATH_UNARY | PURE_BUILTINS):
             return self._dist(lambda xs: self.call_ext(name, xs, kwargs, st, node), list(args))
         short = name.split(".")[-1]
+        if name in ("functools.partial", "partial") and args:
+            return PartialV(args[0], list(args[1:]), dict(kwargs))
         nums = [as_num(a) for a in args]
         allnum = all(x is not None for x in nums) and not kwargs
         if name.startswith("math.") and short in MATH_UNARY and len(args) == 1 and allnum:
@@ -1762,6 +1903,10 @@ class Evaluator:
             return EnumV(args[0], start)
         if name == "zip":
             return ZipV(args)
+        if name in ("itertools.pairwise", "pairwise") and len(args) == 1 and not kwargs:
+            its = self.iter_items(args[0])
+            if its is not None:
+                return Seq("list", [Seq("tuple", [a, b]) for a, b in zip(its, its[1:])], ident="A:pairwise")
         if name == "range" and allnum and all(x.is_const() for x in nums) and 1 <= len(nums) <= 3:
             vals = [x.const_value() for x in nums]
             if all(v.denominator == 1 for v in vals):
@@ -2055,6 +2200,10 @@ class Evaluator:
                 self.bind(target.elts[k].value, Opaque("%s[%d:%s]" % (key(v), len(before), -len(after) if after else "")), st)
         elif isinstance(target, (ast.Tuple, ast.List)):
             n = len(target.elts)
+            if isinstance(v, StrSym) or (isinstance(v, Const) and isinstance(v.v, str)):
+                # unpacking a string gives its characters
+                chars = [StrSym([c_], v.upper) for c_ in v.chars] if isinstance(v, StrSym) else [Const(c_) for c_ in v.v]
+                v = Seq("tuple", chars)
             if isinstance(v, Seq) and len(v.items) == n:
                 for t, x in zip(target.elts, v.items):
                     self.bind(t, x, st)
@@ -2303,6 +2452,25 @@ class Evaluator:
             if any(nm in ("KeyError", "LookupError", "Exception", "BaseException") for nm in names):
                 handler = h
                 break
+        ihandler = None
+        for h in s.handlers:
+            names = ["BaseException"] if h.type is None else ([ntext(x) for x in h.type.elts] if isinstance(h.type, ast.Tuple) else [ntext(h.type)])
+            if any(nm in ("IndexError", "LookupError", "Exception", "BaseException") for nm in names):
+                ihandler = h
+                break
+        if ihandler is not None and len(lookups) == 1:
+            base = self.expr(lookups[0].value, st)
+            if isinstance(base, Seq):
+                # a sequence look-up under a handler for IndexError: `if -len(L) <= i < len(L): <body; else-part> else: <handler>`
+                import copy as _copy
+
+                ln = ast.Constant(value=len(base.items))
+                test = ast.Compare(left=ast.Constant(value=-len(base.items)), ops=[ast.LtE(), ast.Lt()], comparators=[_copy.deepcopy(lookups[0].slice), ln])
+                synth = ast.If(test=test, body=list(s.body) + list(s.orelse), orelse=list(ihandler.body))
+                ast.copy_location(synth, s)
+                ast.fix_missing_locations(synth)
+                synth._parent = getattr(s, "_parent", None)
+                return [synth] + list(s.finalbody)
         if handler is not None and len(lookups) == 1:
             base = self.expr(lookups[0].value, st)
             dictlike = isinstance(base, DictV) or (isinstance(base, Opaque) and base.kind in ("obj", "dict"))
@@ -2673,4 +2841,6 @@ def key(v):  # noqa: F811  (extend with auxiliary values)
         return "override(%s[%r], %s)" % (key(v.o), v.k, key(v.old))
     if isinstance(v, StrSym):
         return "S<%s%s>" % (",".join(v.chars), "^" if v.upper else "")
+    if isinstance(v, PartialV):
+        return "partial(%s)" % ", ".join([key(v.fn)] + [key(a) for a in v.args] + ["%s=%s" % (k, key(x)) for k, x in sorted(v.kwargs.items())])
     return _old_key(v)
